@@ -54,4 +54,13 @@ def microWindow [LinearOrder α] (ps : List α) (c20 : α) (limits : Option (Opt
   | none => decide3 (limitWindow ps none (some c20))
   | some (lo, hi) => decide3 (limitWindow ps lo hi)
 
+/-- model dispatch of `psd_microporous`: which potential family (`true` = Rege-Yang) and whether the Cheng-Yang correction is applied;
+`none` = ParameterError (name not in `_MICRO_PSD_MODELS`) -/
+def dispatch (psdModel : String) : Option (Bool × Bool) :=
+  if psdModel = "HK" then some (false, false)
+  else if psdModel = "HK-CY" then some (false, true)
+  else if psdModel = "RY" then some (true, false)
+  else if psdModel = "RY-CY" then some (true, true)
+  else none
+
 end PgVerif.Model.Micro
